@@ -98,7 +98,7 @@ def ConsOK (s : WStat Val Op) : Consumer Val → Prop
   | .watch _ n deps => ∃ nd, s.nodes[n]? = some nd ∧ nd.isW = false ∧ deps = nd.params
   | .trigX c _ _ => ArgClean s c ∧ ∃ ce, sArgExpr s c = some ce
   | .trigY c _ _ => ArgClean s c ∧ ∃ ce, sArgExpr s c = some ce
-  | .sync _ n deps => ∃ nd, s.nodes[n]? = some nd ∧ nd.isW = false ∧ deps = nd.params
+  | .sync _ n deps _ => ∃ nd, s.nodes[n]? = some nd ∧ nd.isW = false ∧ deps = nd.params
 
 structure DepS (s : WStat Val Op) : Prop where
   node : ∀ (i : Nat) (nd : NStat Val Op), s.nodes[i]? = some nd → NodeDep s nd
@@ -108,9 +108,9 @@ theorem DepS.watch {s : WStat Val Op} (h : DepS s) : ∀ k n deps, Consumer.watc
     ∃ nd, s.nodes[n]? = some nd ∧ nd.isW = false ∧ deps = nd.params :=
   fun k n deps hm => h.cons _ hm
 
-theorem DepS.sync {s : WStat Val Op} (h : DepS s) : ∀ k n deps, Consumer.sync k n deps ∈ s.consumers →
+theorem DepS.sync {s : WStat Val Op} (h : DepS s) : ∀ k n deps a, Consumer.sync k n deps a ∈ s.consumers →
     ∃ nd, s.nodes[n]? = some nd ∧ nd.isW = false ∧ deps = nd.params :=
-  fun k n deps hm => h.cons _ hm
+  fun k n deps a hm => h.cons _ hm
 
 theorem DepS.trigX {s : WStat Val Op} (h : DepS s) : ∀ c t xr, Consumer.trigX c t xr ∈ s.consumers →
     ArgClean s c ∧ ∃ ce, sArgExpr s c = some ce :=
